@@ -155,7 +155,9 @@ CalcFindings(T, ns, j, mid, post) ==
 
 \* calculate_index: the series of the targets at one position are recomputed; they must
 \* match their layer function and reproduce what was there; nothing else may change
-ReindexFindings(T, ns, j, pre, post, pos) ==
+\* fresh = the candle was updated in place by the caller before the call: the recomputed readings
+\* follow the new values (nothing to reproduce)
+ReindexFindingsF(T, ns, j, pre, post, pos, fresh) ==
   IF {n \in ns : T.ind[n].mg = j} = {}
   THEN (IF KVSeqSame(pre, post) THEN {} ELSE {<<"reindex_elsewhere", j, "", 0>>})
   ELSE IF pos < 1 \/ pos > Len(post) \/ Len(pre) # Len(post) THEN {<<"reindex_range", j, "", pos>>}
@@ -166,7 +168,7 @@ ReindexFindings(T, ns, j, pre, post, pos) ==
                                   m == MatchAny(o, F(s, post, pos), s.rv, s.sl)
                               IN <<IF m = "bad" THEN "value"
                                    ELSE IF s.rv >= 0 /\ ~RoundedV(o, s.rv) THEN "round"
-                                   ELSE IF ~SameV(o, StoredAt(pre[pos], s)) THEN "reindex_differs"
+                                   ELSE IF ~fresh /\ ~SameV(o, StoredAt(pre[pos], s)) THEN "reindex_differs"
                                    ELSE IF m = "unchecked" THEN "unchecked" ELSE "ok", s.name>>
                               : q \in 1..Len(ss) }
                        : n \in {n \in ns : T.ind[n].mg = j} } }
@@ -174,6 +176,8 @@ ReindexFindings(T, ns, j, pre, post, pos) ==
                 i \in {i \in 1..Len(post) : i # pos /\ (~KVSame(pre[i].ind, post[i].ind)
                                                         \/ ~KVSame(pre[i].sub, post[i].sub))} }
        \cup {<<"ok", j, "reindex", 0>>}
+
+ReindexFindings(T, ns, j, pre, post, pos) == ReindexFindingsF(T, ns, j, pre, post, pos, FALSE)
 
 \* the exact state a purge-type call must leave (C14), and the columns of the indicators it
 \* was not aimed at (C13)
@@ -417,12 +421,15 @@ StepFindings(T, e, post) ==
              \* a candle whose values could not be recovered exactly (long Heikin-Ashi chains
              \* outgrow 32 bits) cannot be judged: counted as unchecked, never as a verdict
              ELSE IF \E i \in 1..Len(post[j]) : post[j][i].x = 0 THEN {<<"unchecked", j, "inexact_candle", 0>>}
+             ELSE IF e.op = "poke" THEN {}        \* the caller edited a candle: taken as observed
              ELSE IF ~mid.ok THEN {<<"stage_err", j, mid.err, 0>>}
              ELSE IF sd # 0 THEN {<<"stage", j, "", sd>>}
              ELSE (IF ~rd THEN {}
                    ELSE (IF e.op \in CalcOps THEN CalcFindings(T, tg, j, mid.cs, post[j]) ELSE {})
                         \cup (IF e.op = "calculate_index"
                               THEN ReindexFindings(T, tg, j, st[j], post[j], PyIdx(Len(st[j]), e.idx)) ELSE {})
+                        \cup (IF e.op = "calculate_index_fresh"
+                              THEN ReindexFindingsF(T, tg, j, st[j], post[j], PyIdx(Len(st[j]), e.idx), TRUE) ELSE {})
                         \cup (IF e.op \in {"purge", "remove"} THEN PurgeFindings(T, e, j, mid.cs, post[j]) ELSE {})
                         \cup (IF e.op = "recalculate" THEN RecalcSame(T, e, j, st[j], post[j]) ELSE {})
                         \cup (IF e.op \in {"purge", "remove", "recalculate", "calculate_index", "calculate"}
